@@ -26,7 +26,8 @@ def adi_cases(seed, count, tag, max_side=6):
             kmax = 4
         D = 8 * q * dy * dy * dx * dx
         big = D + 2 * p * max(dy, dx) ** 2 * 4 * kmax
-        c["S"] = max(2, min(16, int(math.log2((2 ** 29) / (big * 9.0)))))
+        # every partial sum of a residual (three products on each side) must stay below 2^31
+        c["S"] = max(1, min(16, int(math.log2((2 ** 29) / (big * 9.0))) - 3))
         if rng.random() < 0.5:
             # the diffusivity of one eroder object is changed through its setters between steps,
             # coming back to earlier values
